@@ -65,7 +65,7 @@ def gen(rng):
         elif k < 0.80:
             ops.append("trig recv")
         elif k < 0.90 and not closed:
-            ops.append("trig close")
+            ops.append(rng.choice(["trig close", "trig procclose"]))
             closed = True
         else:
             ops.append("trig tick " + rng.choice(CATS + ["all"]))
@@ -74,7 +74,7 @@ def gen(rng):
         if rng.random() < 0.5:
             for c in rng.sample(CATS + ["all"], rng.randint(1, 7)):
                 ops.append("trig tick " + c)
-        ops.append("trig close")
+        ops.append(rng.choice(["trig close", "trig procclose"]))
     for _ in range(rng.randint(0, 3)):
         ops.append("trig tick " + rng.choice(CATS + ["all"]))
     ops.append("trig drain")
@@ -101,7 +101,7 @@ def run(ctx, bname, seqs):
 def nontrivial(r):
     seen_close = False
     for o, il in zip(r.ops, r.impl):
-        if o.startswith("trig close"):
+        if o.startswith("trig close") or o.startswith("trig procclose"):
             seen_close = True
             if il and ("closer=cancel" in il or "closer=confirm" in il):
                 return True
